@@ -336,6 +336,44 @@ func vfC29Episode(rec *evid.Rec, ep int) {
 					}
 					continue
 				}
+				if r.Intn(100) < 6 && len(handles) > 0 {
+					// a request through the wrong kind of handle (a file or link where a directory is
+					// expected and the other way round): refused, changes nothing - and must leave
+					// nothing behind either (a lock kept on the refusal path would stop a later request)
+					var hs []uint64
+					for _, h := range handles {
+						hs = append(hs, h)
+					}
+					sort.Slice(hs, func(a, b int) bool { return hs[a] < hs[b] })
+					h := hs[r.Intn(len(hs))]
+					var res *rfc.Res
+					switch r.Intn(7) {
+					case 0:
+						res = do(12, xdrw.ArgDirop(h, "zz")) // REMOVE
+					case 1:
+						res = do(13, xdrw.ArgDirop(h, "zz")) // RMDIR
+					case 2:
+						res = do(3, xdrw.ArgDirop(h, "zz")) // LOOKUP
+					case 3:
+						res = do(16, xdrw.ArgReaddir(h, 0, [8]byte{}, 4096))
+					case 4:
+						res = do(14, xdrw.ArgRename(h, "zz", h, "yy"))
+					case 5:
+						res = do(5, xdrw.ArgFH(h)) // READLINK
+					default:
+						res = do(6, xdrw.ArgRead(dirH[dirs[r.Intn(len(dirs))]], 0, 16)) // READ of a directory
+					}
+					if res == nil && !stalledHere {
+						mu.Lock()
+						mismatch = append(mismatch, fmt.Sprintf("client %d: a request through the wrong kind of handle got no decodable reply", k))
+						mu.Unlock()
+						return
+					}
+					if res == nil {
+						return
+					}
+					continue
+				}
 				if r.Intn(100) < 55 { // mutate one of my paths
 					p := mine[r.Intn(4)]
 					in = vfC29In{Path: p, Owner: k}
